@@ -82,4 +82,25 @@ CLAIMS = {
     design_ref="DESIGN.md §3 C19",
     note=_corr + "fmod vs a - trunc(a/b) b rounding for huge quotients not modelled; abs at exactly 0 follows the code's `> 0` test.",
     technique="Lean 4 proof over list model + differential correspondence"),
+ "C01": dict(
+    text="Lean 4 + Mathlib theorems over ℝ for EVERY formula of the grammar (induction on the expression): the model's "
+         "dual-number evaluation returns the plain value (C01_value) and, for every variable name, the true derivative "
+         "of the formula along any differentiable motion of the leaves consistent with their tags (C01_grad_exact, "
+         "C01_partial_derivative), via scalar-jet soundness against Mathlib's HasDerivAt (13 operators incl. Φ via FTC "
+         "and Φ⁻¹ via the inverse function theorem) and a refinement from the list-level dual numbers to jets "
+         "(C01_refines); float/dual mixing = promotion (C01_mixed_eq_promoted), owned = borrowed (C01_variants). "
+         "Correspondence: thousands of random formulas inside the differentiable domain, close-float.",
+    design_ref="DESIGN.md §3 C01",
+    note=_corr + "f64 rounding, glibc exp/log/pow, statrs Φ/Φ⁻¹ modelled not verified; f64/Dual division mixing not in C01_mixed_eq_promoted.",
+    technique="Lean 4 + Mathlib proof (structural induction, HasDerivAt) over hand-written model + differential correspondence"),
+ "C02": dict(
+    text="Lean 4 + Mathlib theorems over ℝ: the Dual2 chain rules, as scalar 2-jets (value, first, half second "
+         "derivative), are sound along every twice-differentiable curve for every formula (C02_second_exact), agree with "
+         "first order in value and gradient (C02_proj), read-back doubles the half-Hessian (C02_readback), conversion down "
+         "drops only the Hessian (C02_from_drops_only_hessian). PARTIAL: the refinement from list-level Dual2 arithmetic "
+         "(Hessian blocks aligned by name) to 2-jets is covered by correspondence (Hessian per name pair, symmetry oracle) "
+         "and C03's exhaustive layout run, not by a theorem.",
+    design_ref="DESIGN.md §3 C02",
+    note=_corr + "as C01; list-level Dual2 -> jet refinement not proved (partial).",
+    technique="Lean 4 + Mathlib proof of second-order jet soundness + differential correspondence with symmetry oracle"),
 }
